@@ -88,6 +88,11 @@ func runC12(c *core.Ctx) {
 			// the goroutine is started on the object being constructed (a fresh allocation), not on the receiver
 			core.Instrs(f, func(ins ssa.Instruction) {
 				if g, ok := ins.(*ssa.Go); ok && core.Callee(&g.Call) == run {
+					// (a loop bound to the channel alone: the argument is the channel stored into the object being built,
+					// which is what made the parameter read as the field)
+					if len(run.Params) > 0 && core.FieldKey(run.Params[0]) == box.field {
+						return
+					}
 					if _, fresh := g.Call.Args[0].(*ssa.Alloc); !fresh {
 						okSpawn, detail = false, core.FuncName(f)+" starts a second run loop on an existing object"
 					}
